@@ -91,7 +91,7 @@ var props = []PropSpec{
 					c.InstrBudget = 2_000_000
 					c.AllocLimit = 200_000
 				},
-				Bounds: "every byte of the packet symbolic (header, set header, body); packet length 0..20+B with B = 12 (quick) / 16 (thorough) for fixed-width templates and 6 / 7 for templates with a variable-length field; templates: zero fields, each of 14 single-field shapes (incl. unknown elements of length 0, 3, variable), 11 (quick) / 36 pairs + 27 triples (thorough) multi-field layouts; x 3 decoding modes"},
+				Bounds: "every byte of the packet symbolic (header, set header, body); packet length 0..20+B with B = 12 (quick) / 16 (thorough; 12 for multi-field layouts) for fixed-width templates and 6 / 7 for templates with a variable-length field; templates: zero fields, each of 14 single-field shapes (incl. unknown elements of length 0, 3, variable), 11 (quick) / 36 pairs + 27 triples (thorough) multi-field layouts; x 3 decoding modes"},
 			{Func: "Check_TemplatePacket", Reach: []string{"error", "message", "zero-fields", "one-field", "several-fields", "invalidated-or-other-key"},
 				Tune: func(c *sym.Config, th bool) {
 					c.HangIsViolation = true
@@ -151,7 +151,7 @@ var props = []PropSpec{
 		Assumptions: append([]string{"wire bytes are produced by the reference encoder from symbolic values; the same bytes are presented to three collectors (strict, keep, drop) and, reduced to the known fields, to a fourth"}, codecAssumptions...),
 		Harnesses: []HarnessSpec{
 			{Func: "Check_Modes", Reach: []string{"strict-rejects", "all-known", "keep-checked", "drop-checked", "reduced-checked", "older-template", "older-template-same-ids-other-lengths"},
-				Bounds: "templates of 1..2 (quick) / 1..3 (thorough) positions, each a known element (6 kinds) or an unknown one (IANA id 999, enterprise 9999, Antrea id 9999) of fixed length 1,2,5 or variable length (payload 0,3,255 bytes); 1 / 1..2 records; all values symbolic; optionally an older template for the same id installed first in every mode: a known-only one, or (lenient modes) one with the same specifiers whose unknown elements were announced with other lengths"},
+				Bounds: "templates of 1..2 (quick) / 1..3 (thorough) positions, each a known element (6 kinds) or an unknown one (IANA id 999, enterprise 9999, Antrea id 9999) of fixed length 1,2,5 or variable length (payload 0,3,255 bytes); 1 / 1..2 records (1 for three positions); all values symbolic; optionally an older template for the same id installed first in every mode: a known-only one, or (lenient modes) one with the same specifiers whose unknown elements were announced with other lengths"},
 			{Func: "Check_KeepOverTCP", Reach: []string{"tcp-checked"}, Bounds: "keep and drop mode through handleTCPClient: template + two data messages with a known and an unknown (fixed 4 / variable) field on one connection; symbolic values"},
 		},
 	},
@@ -182,8 +182,14 @@ var props = []PropSpec{
 			{Func: "Check_RecordOnWaitingFlow", Reach: []string{"same-node-record", "correlating-record"}, Tune: func(c *sym.Config, th bool) { c.ClockMode = "frozen" },
 				Bounds: "one inter-node flow waiting for correlation, created by either node, arbitrary deadlines (T0 + k*2^30 ns, |k| <= 400), then one more record from the same or from the other node"},
 			{Func: "Check_Step", Reach: []string{"record", "scan", "callback-failed", "inactive-expiry-removes", "active-expiry-keeps", "not-ready", "expiry", "expiry-empty"},
-				Tune:   func(c *sym.Config, th bool) { c.ClockMode = "frozen" },
-				Bounds: "0..2 (quick) / 0..3 (thorough) flows with symbolic active/inactive deadlines, readiness and retry count; one step: record for an existing or new key, expiry scan with the callback failing on any subset of keys, or GetExpiryFromExpirePriorityQueue"},
+				Tune: func(c *sym.Config, th bool) {
+					c.ClockMode = "frozen"
+					// thorough: three flows (1 M obligations over six symbolic deadlines); the
+					// re-discharge of every obligation on the second solver does not fit the
+					// time budget here (> 25 min) and is left to the quick-tier bound
+					c.SecondSolver = ""
+				},
+				Bounds: "0..2 (quick) / 0..3 (thorough) flows with symbolic active/inactive deadlines, readiness and retry count (the third flow of the thorough tier: symbolic deadlines, ready, no retry used, callback succeeds; thorough without the second solver); flows of several keys are created by one multi-record message; the second key's flow is an inter-node flow denied at egress; one step: record for an existing or new key, expiry scan with the callback failing on any subset of keys, or GetExpiryFromExpirePriorityQueue"},
 		},
 	},
 	{
@@ -247,7 +253,7 @@ var props = []PropSpec{
 		},
 		Harnesses: []HarnessSpec{
 			{Func: "Check_Publish", NoNative: true, Reach: []string{"published", "several-records", "nothing-published"},
-				Bounds: "streams of 1..2 (quick) / 1..3 (thorough) IPFIX messages, each a template or a data message with 0..2 records, IPv4 or IPv6, two exporter addresses, both schemas; marshalled length {0,7} / {0,1,2,7,300}"},
+				Bounds: "streams of 1..2 (quick) / 1..3 (thorough) IPFIX messages, each a template or a data message with 0..2 records, IPv4 or IPv6, two exporter addresses, both schemas (the third message of a thorough stream: 0..1 records, IPv4, one address); the second message lists its elements in another order under the same template id; the second record of a message holds its IPv4 addresses in the 16-byte form; marshalled length {0,7} / {0,1,2,7,300}"},
 		},
 	},
 	{
@@ -294,7 +300,7 @@ var props = []PropSpec{
 	},
 	{
 		ID: "C12", Pkg: "./c12", Level: "other", NoNativeBuild: true,
-		Explanation: "PARTIAL and bounded; originally planned as not applicable (DESIGN.md section 6) and claimed only for the slice that became encodable once schedule exploration existed (section 11.4). Decided: TWO clients. (1) The real Start() of the TCP server runs on a listener supplied by the environment stub (net.Listen returns the harness's in-memory listener holding two connections): accept loop, wait-group accounting, per-connection handler and reader goroutines, listener close on Stop. (2) The real Start() of the UDP server runs on a stub socket (net.ListenUDP / ReadFromUDP deliver the registered datagrams of two clients into the caller's buffer, then block until Close): socket read loop with its buffer handling, dispatch, per-client goroutines and queues. (3)/(4) the same handlers driven through the hooks VerifServeConn / VerifHandleUDPMessage with more variation (a client that disconnects inside a message header or body; three datagram arrival orders). In all four a consumer goroutine drains the message channel and Stop is called either after all traffic was consumed or while it is in flight. Under EVERY interleaving of the goroutines' synchronisation points (mutex lock/unlock with real blocking semantics, channel send/receive/close/select with rendezvous semantics for unbuffered channels, WaitGroup, the stub socket's read) within the stated preemption budget: each connection's / client's messages are delivered exactly once (a prefix of them when Stop comes first), in the order sent, uncorrupted and never mixed between clients (values are symbolic: an SMT obligation); the connection count / client table returns to zero; Stop returns (a hang is an engine deadlock / budget outcome); the listener / socket and every accepted connection are closed; afterwards no interpreted goroutine of the process remains; no panic (e.g. send on a closed channel, negative WaitGroup counter). NOT covered and not claimed: kernel sockets, TLS/DTLS servers, more than two clients, preemption inside code between synchronisation points (data races there are not detected: the race detector is not involved), Stop racing with the very beginning of Start, timing.",
+		Explanation: "PARTIAL and bounded; originally planned as not applicable (DESIGN.md section 6) and claimed only for the slice that became encodable once schedule exploration existed (section 11.4). Decided: TWO clients. (1) The real Start() of the TCP server runs on a listener supplied by the environment stub (net.Listen returns the harness's in-memory listener holding two connections): accept loop, wait-group accounting, per-connection handler and reader goroutines, listener close on Stop. (2) The real Start() of the UDP server runs on a stub socket (net.ListenUDP / ReadFromUDP deliver the registered datagrams of two clients into the caller's buffer, then block until Close): socket read loop with its buffer handling, dispatch, per-client goroutines and queues. (2b) the same with the idle ticker of the first client's handler firing at any point relative to that client's later datagrams (at most once, in order, the other client loses nothing, a new handler serves a client that keeps sending). (3)/(4) the same handlers driven through the hooks VerifServeConn / VerifHandleUDPMessage with more variation (a client that disconnects inside a message header or body; three datagram arrival orders). In all four a consumer goroutine drains the message channel and Stop is called either after all traffic was consumed or while it is in flight. Under EVERY interleaving of the goroutines' synchronisation points (mutex lock/unlock with real blocking semantics, channel send/receive/close/select with rendezvous semantics for unbuffered channels, WaitGroup, the stub socket's read) within the stated preemption budget: each connection's / client's messages are delivered exactly once (a prefix of them when Stop comes first), in the order sent, uncorrupted and never mixed between clients (values are symbolic: an SMT obligation); the connection count / client table returns to zero; Stop returns (a hang is an engine deadlock / budget outcome); the listener / socket and every accepted connection are closed; afterwards no interpreted goroutine of the process remains; no panic (e.g. send on a closed channel, negative WaitGroup counter). NOT covered and not claimed: kernel sockets, TLS/DTLS servers, more than two clients, preemption inside code between synchronisation points (data races there are not detected: the race detector is not involved), Stop racing with the very beginning of Start, timing.",
 		Assumptions: []string{"in-memory net.Conn honouring the documented contract (Read returns the stream then io.EOF; after Close, Read errors)", "in-memory net.Listener: Accept returns the queued connections, then blocks until Close and returns an error", "stub UDP socket: ReadFromUDP copies the next datagram into the buffer it is given and returns its length and source; after Close it returns (0, nil, error)", "bounded preemptions; cooperative execution between synchronisation points", "the UDP client's idle ticker fires only where a harness lets its interval pass (Check_UDPIdleTimeout)"},
 		Harnesses: []HarnessSpec{
 			{Func: "Check_TwoClients", NoNative: true, Reach: []string{"all-delivered", "stopped-during-traffic"},
